@@ -484,12 +484,12 @@ func (e *Engine) dispatch(st *State, fn *types.Func, args []Value, call *ast.Cal
 				keep = true
 			}
 		}
-		if c := e.prog.contracts[full]; !keep && c != nil && !c.inline {
+		if c := e.prog.contracts[full]; !keep && c != nil && !c.inline && !c.standalone {
 			ignored = true
 			e.noteAssumption("contract not used at this call (only clause): " + full)
 		}
 	}
-	if fc := e.prog.contracts[full]; fc != nil && !fc.inline && !ignored {
+	if fc := e.prog.contracts[full]; fc != nil && !fc.inline && !ignored && !fc.standalone {
 		return e.callContract(st, fc, args, call)
 	}
 	if fi := e.prog.funcs[full]; fi != nil && fi.decl.Body != nil {
